@@ -3,7 +3,10 @@
    returned; correspondence aspects compare the extracted pipeline model (partitioned
    sorter, NodeLabels reader, MergeDedupPairs) with the implementation's output. *)
 open Model
+open Model.XformM
 type string = Stdlib.String.t
+let max = Stdlib.max
+let min = Stdlib.min
 open Conv
 
 let nlists (s : string) : n list list = List.map (List.map n_of_int) (lists_of_string s)
